@@ -272,8 +272,78 @@ impl Check for C17 {
     }
 }
 
+/// The parsers are pure functions of their input; a node / client calls them from many threads. One case in 32: a set of
+/// inputs is parsed on one thread first, then by 4-8 threads at the same time; every thread must get the same answers.
+fn concurrent_parsers(cx: &mut Cx) {
+    use rand::SeedableRng;
+    fn answers(s: &str) -> Vec<String> {
+        vec![
+            format!("{:?}", RegisterAddress::from_hex(s).map(|a| a.to_hex()).map_err(|_| ())),
+            format!("{:?}", ScratchpadAddress::from_hex(s).map(|a| a.to_hex()).map_err(|_| ())),
+            format!("{:?}", str_to_addr(s).map(addr_to_str).map_err(|_| ())),
+            format!("{:?}", PortRange::parse(s).map_err(|_| ())),
+            format!("{:?}", AttoTokens::from_str(s).map(|a| a.to_string()).map_err(|_| ())),
+            format!("{:?}", ant_bootstrap::craft_valid_multiaddr_from_str(s, false).map(|m| m.to_string())),
+        ]
+    }
+    let mut inputs: Vec<String> = vec![];
+    for _ in 0..40 {
+        inputs.push(match cx.rng.gen_range(0..8) {
+            0 => {
+                let n = *[31usize, 32, 33, 64, 80].choose(&mut cx.rng).expect("nonempty");
+                hex(&gen::bytes(&mut cx.rng, n))
+            }
+            1 => format!("{}-{}", cx.rng.gen_range(0..70_000u32), cx.rng.gen_range(0..70_000u32)),
+            2 => format!("{}", cx.rng.gen_range(0..70_000u32)),
+            3 => format!("{}.{}", cx.rng.gen_range(0..1_000_000u64), cx.rng.gen_range(0..1_000_000_000u64)),
+            4 => format!("/ip4/10.{}.{}.{}/udp/{}/quic-v1/p2p/{}", cx.rng.gen::<u8>(), cx.rng.gen::<u8>(), cx.rng.gen::<u8>(), cx.rng.gen_range(1..65535u32), libp2p::PeerId::random()),
+            5 => format!("10.0.0.{}:{}", cx.rng.gen::<u8>(), cx.rng.gen_range(1..65535u32)),
+            6 => {
+                let h = hex(&gen::bytes(&mut cx.rng, 32));
+                mutate_str(&mut cx.rng, &h)
+            }
+            _ => long_text(&mut cx.rng).chars().take(200).collect(),
+        });
+    }
+    let expected: Vec<Result<Vec<String>, String>> = inputs.iter().map(|s| catch(|| answers(s))).collect();
+    let inputs = std::sync::Arc::new(inputs);
+    let expected = std::sync::Arc::new(expected);
+    let threads = cx.rng.gen_range(4..=8);
+    let handles: Vec<std::thread::JoinHandle<Vec<String>>> = (0..threads)
+        .map(|_| {
+            let (inputs, expected, seed) = (inputs.clone(), expected.clone(), cx.rng.gen::<u64>());
+            std::thread::spawn(move || {
+                let mut rng = rand::rngs::StdRng::seed_from_u64(seed);
+                let mut faults = vec![];
+                for _ in 0..400 {
+                    let i = rng.gen_range(0..inputs.len());
+                    let got = catch(|| answers(&inputs[i]));
+                    if got != expected[i] && faults.len() < 3 {
+                        faults.push(format!("input {:?}: alone {:?}, among other threads {:?}", inputs[i].chars().take(80).collect::<String>(), expected[i], got));
+                    }
+                }
+                faults
+            })
+        })
+        .collect();
+    for h in handles {
+        match h.join() {
+            Ok(faults) => {
+                cx.count_n("concurrent-parses", 400 * 6);
+                for f in faults {
+                    cx.violation("concurrent:parser-answer-differs-between-threads", f, json!({"threads": threads}));
+                }
+            }
+            Err(_) => cx.violation("concurrent:parser-thread-died", "a parsing thread died".to_string(), json!({"threads": threads})),
+        }
+    }
+}
+
 impl C17 {
     fn run_case_inner(&self, cx: &mut Cx) {
+        if cx.index % 32 == 11 {
+            concurrent_parsers(cx);
+        }
         let mut t = T { cx };
         let rng_len = |t: &mut T| -> usize { *[0usize, 1, 2, 7, 8, 15, 16, 19, 20, 21, 31, 32, 33, 47, 48, 49, 79, 80, 81, 96, 200].choose(&mut t.cx.rng).expect("nonempty") };
 
